@@ -257,7 +257,7 @@ class Machine:
             if isinstance(v, Tup) and isinstance(e[1], int) and 0 <= e[1] < len(v):
                 return v[e[1]]
             if isinstance(v, T) and v != TOP:
-                return T("idx", v, e[1])
+                return T("idx", v[1] if v[0] == "array" else v, e[1])
             return TOP
         if k == "sub":
             if isinstance(v, Tup):
@@ -467,6 +467,20 @@ class Machine:
                 return v
             if isinstance(v, T) and rv["ty"] in INT_BITS and v != TOP:
                 return T("cast", v, rv["ty"])
+            if isinstance(v, Ref) and "Unsize" in str(rv.get("kind")):
+                dv = self.deref(s, v)
+                if isinstance(dv, T) and dv != TOP:
+                    v = dv
+            if isinstance(v, T) and v != TOP and v[0] != "array" and "Unsize" in str(rv.get("kind")) and rv["op"].get("k") in ("copy", "move"):
+                # `&[T; N]` → `&[T]` of an opaque array: keep its length with it
+                from .sm9 import place_types
+                try:
+                    sty = place_types(s.frames[fi].body, rv["op"]["place"])[-1]
+                except Exception:
+                    sty = ""
+                mm = re.search(r"\[[A-Za-z0-9_:]+; (\d+)\]", sty or "")
+                if mm and int(mm.group(1)) <= 64:
+                    return T("array", v, int(mm.group(1)))
             return v
         if k == "binop":
             return self.binop(rv["op"], self.operand(s, fi, rv["a"]), self.operand(s, fi, rv["b"]), rv)
@@ -795,7 +809,16 @@ class Machine:
                 term = T("call", fk.d, fk.i, tuple(self._freeze(s, a) for a in fargs))
                 cbo = self.F.bodies.get(fk.d)
                 out = (cbo.rec.get("output") if cbo is not None else "") or ""
-                if out.strip() != "bool" and ty_head(out) not in CORE_VARIANTS:
+                h = ty_head(out)
+                if out.strip() == "bool":
+                    return _Forks([(wrap(True), term, 1), (wrap(False), term, 0)])
+                if h in CORE_VARIANTS and h != "core::ops::ControlFlow":
+                    alts = []
+                    for vn in CORE_VARIANTS[h]:
+                        payload = [] if vn == "None" else [T("payload", term, vn)]
+                        alts.append((wrap(Adt(h, vn, payload)), term, vn))
+                    return _Forks(alts)
+                if cbo is not None or h not in CORE_VARIANTS:
                     return wrap(term)
             raise Stop("undecided", None, "function value %s forks inside a combinator" % fk.d)
         raise Stop("undecided", None, "unknown function value")
